@@ -140,6 +140,11 @@ pub enum Op {
     XDel { t: Tgt, i: usize, n: usize },
     XAttr { t: Tgt, k: String, v: String },
     XAttrDel { t: Tgt, k: String },
+    /// quote a range of the root array ('a') or root text ('t') and store it under `key` of the
+    /// root map; bounds are (index, inclusive?) or None for unbounded
+    Quote { t: Tgt, src: char, lo: Option<(u32, bool)>, hi: Option<(u32, bool)>, key: String },
+    /// link the entry `k` of the root map and push the link to the end of the root array
+    Link { t: Tgt, k: String },
 }
 
 impl Op {
@@ -165,7 +170,9 @@ impl Op {
             | Op::XIns { t, .. }
             | Op::XDel { t, .. }
             | Op::XAttr { t, .. }
-            | Op::XAttrDel { t, .. } => t,
+            | Op::XAttrDel { t, .. }
+            | Op::Quote { t, .. }
+            | Op::Link { t, .. } => t,
         }
     }
     pub fn is_delete(&self) -> bool {
@@ -460,6 +467,27 @@ pub fn apply_real(
             Out::YXmlText(e) => e.remove_attribute(txn, k),
             _ => return Err("not xml node".into()),
         },
+        Op::Quote { src, lo, hi, key, .. } => {
+            use std::ops::Bound;
+            use yrs::Quotable;
+            let b = |x: &Option<(u32, bool)>| match x {
+                None => Bound::Unbounded,
+                Some((i, true)) => Bound::Included(*i),
+                Some((i, false)) => Bound::Excluded(*i),
+            };
+            let range = (b(lo), b(hi));
+            if *src == 'a' {
+                let p = roots.a.quote(&*txn, range).map_err(|e| format!("quote refused: {}", e))?;
+                roots.m.insert(txn, key.as_str(), p);
+            } else {
+                let p = roots.t.quote(&*txn, range).map_err(|e| format!("quote refused: {}", e))?;
+                roots.m.insert(txn, key.as_str(), p);
+            }
+        }
+        Op::Link { k, .. } => {
+            let p = roots.m.link(&*txn, k).ok_or("link refused: no such key")?;
+            roots.a.push_back(txn, p);
+        }
     }
     Ok(())
 }
@@ -690,6 +718,16 @@ pub fn apply_model(m: &mut Model, op: &Op) -> Result<(), String> {
             }
             _ => return Err("not xml node".into()),
         },
+        Op::Quote { key, .. } => {
+            if let Some(Node::Map(mm)) = m.get_mut(&'m') {
+                mm.insert(key.clone(), Node::Weak(Vec::new()));
+            }
+        }
+        Op::Link { .. } => {
+            if let Some(Node::Array(a)) = m.get_mut(&'a') {
+                a.push(Node::Weak(Vec::new()));
+            }
+        }
     }
     Ok(())
 }
